@@ -16,6 +16,8 @@ NP = {"np": glob("numpy"), "pd": glob("pandas")}
 def check(ctx):
     ctx.guard(r011_frame, ctx, "R01.1")
     ctx.guard(r012_slicing, ctx, "R01.2")
+    ctx.guard(r015_param_routing, ctx, "R01.5")
+    ctx.guard(r016_features, ctx, "R01.6")
     ctx.guard(r013_grouping, ctx)
     ctx.guard(r014_plumbing, ctx)
 
@@ -93,6 +95,76 @@ def r011_frame(ctx, rule):
     ctx.ob(rule, fq, c.node, ok, "create() receives the sensitive / control feature names", construct="create feature names")
 
 
+def r016_features(ctx, rule):
+    ctx.rule(rule, "MetricFrame.__init__: sensitive features are always processed, control features exactly when they are given; "
+                   "their columns are added for every processed feature (control columns under no other condition), the names "
+                   "lists come from the same processed lists, and the disaggregated result is handed to _populate_results")
+    A = Analysis(ctx, no_inline=[DR + ".create", M_BS + ":generate_bootstrap_samples", MF + "._populate_results", MF + "._process_features",
+                                 MF + "._populate_results_ci", MF + "._get_annotated_metric_functions"], max_depth=2)
+    r = A.run(MF + ".__init__", cls_ctx=MF)
+    fq = r.func
+    P = r.params
+    pf = calls_to(r, MF + "._process_features")
+    create = calls_to(r, DR + ".create")
+    ctx.require(len(create) == 1, "anchor vanished: DisaggregatedResult.create call")
+    c = create[0]
+    sf = [e for e in pf if arg(e, 1, "features") is P["sensitive_features"]]
+    cf = [e for e in pf if arg(e, 1, "features") is P["control_features"]]
+    given = A.C.canon(A.entry(r, "control_features is not None"))
+
+    def guards(e):
+        return [A.C.canon(l) for l in pc_literals(e.pc) if l.op != "inloop"]
+    base = guards(c)
+    ok = len(sf) == 1 and len(cf) == 1 and len(pf) == 2 and guards(sf[0]) == base[:len(guards(sf[0]))] and given not in guards(sf[0]) \
+        and [g for g in guards(cf[0]) if g not in base] == [given]
+    ok = ok and const_value(arg(sf[0], 0)) == "sensitive_feature_" and const_value(arg(cf[0], 0)) == "control_feature_" \
+        and arg(sf[0], 2) is arg(cf[0], 2) and contains(arg(sf[0], 2), lambda s_: s_ is P["y_true"])
+    ctx.ob(rule, fq, (cf[0].node if cf else c.node), bool(ok), "sensitive features are processed unconditionally, control features "
+           "exactly when control_features is not None" if ok else "the control (or sensitive) features are not processed exactly "
+           "when they are given", construct="feature processing dispatch")
+    if not ok:
+        return
+    for nm, e in (("_sf_names", sf[0]), ("_cf_names", cf[0])):
+        v = A.at(c, "self." + nm)
+        cv = v
+        if nm == "_cf_names":
+            ok2 = cv.op == "ite" and A.C.canon(cv.args[0]) is given and cv.args[2] is NONE
+            cv = cv.args[1] if ok2 else cv
+        else:
+            ok2 = True
+        ok2 = ok2 and cv.op == "comp" and contains(cv, lambda s_: s_ is e.data["result"]) and contains(cv, lambda s_: s_.op == "attr" and s_.args[1] == "name_")
+        ctx.ob(rule, fq, e.node, bool(ok2), f"{nm} lists the names of the processed features" + (" (None without control features)" if nm == "_cf_names" else ""),
+               construct=f"{nm} value")
+    stores = [e for e in r.events if e.kind == "store" and e.data.get("tkind") == "sub" and e.func == fq and e.loops
+              and e.data["key"].op == "attr" and e.data["key"].args[1] == "name_"]
+    loops = {x.data.get("lid"): x for x in r.events if x.kind == "loop"}
+    seen = {"s": 0, "c": 0}
+    okst = True
+    for e in stores:
+        it = loops[e.loops[-1]].data["iter"]
+        extra = [g for g in guards(e) if g not in base]
+        if it is sf[0].data["result"]:
+            seen["s"] += 1
+            okst = okst and not extra
+        elif contains(it, lambda s_: s_ is cf[0].data["result"]):
+            seen["c"] += 1
+            okst = okst and all(g is given or g is A.C.canon(mk("cmp", "is not", it, NONE)) for g in extra)
+        else:
+            okst = False
+    okst = okst and seen["s"] == 1 and seen["c"] == 1
+    ctx.ob(rule, fq, stores[0].node if stores else c.node, okst, "one column per processed sensitive feature and, when given, per "
+           "processed control feature", construct="feature column loops")
+    pop = calls_to(r, MF + "._populate_results")
+    ok = len(pop) == 1 and arg(pop[0], 0) is c.data["result"] and guards(pop[0]) == base
+    ctx.ob(rule, fq, pop[0].node if pop else c.node, ok, "the disaggregated result is handed to _populate_results", construct="populate call")
+    gam = calls_to(r, MF + "._get_annotated_metric_functions")
+    ok = len(gam) == 1 and arg(gam[0], 0, "metric") is P["metrics"] and arg(gam[0], 1, "sample_params") is P["sample_params"] \
+        and kw(c, "annotated_functions") is gam[0].data["result"] and contains(arg(gam[0], 2, "all_data"), lambda s_: s_.op == "call") \
+        and root_of(kw(c, "data")) is not None
+    ctx.ob(rule, fq, gam[0].node if gam else c.node, ok, "the metric functions and their sample parameters are wrapped against the same "
+           "frame and handed to create()", construct="annotated functions wiring")
+
+
 def r012_slicing(ctx, rule):
     ctx.rule(rule, "AnnotatedMetricFunction.__call__ takes every argument of the metric from the same frame df: positional "
                    "columns in constructor order, keyword columns through the mapping written by the MetricFrame (same "
@@ -165,6 +237,75 @@ def r012_slicing(ctx, rule):
         and contains(pos, lambda s: s is ri.params["positional_argument_names"])
     ctx.ob(rule, ri.func, None, ok, "the wrapper stores func, the positional names and the mapping it was given",
            construct="wrapper fields")
+
+    def given_or_default(v, param):
+        """v is `param if param is not None else <default>` (either orientation)"""
+        if v is None:
+            return False
+        cv = Aw.C.canon(v)
+        notnone = Aw.C.canon(mk("cmp", "is not", param, NONE))
+        if cv.op != "ite":
+            return False
+        if cv.args[0] is notnone:
+            return cv.args[1] is Aw.C.canon(param) and not contains(cv.args[2], lambda s_: s_ is param)
+        if cv.args[0] is Aw.C._not(notnone):
+            return cv.args[2] is Aw.C.canon(param) and not contains(cv.args[1], lambda s_: s_ is param)
+        return False
+    okd = given_or_default(h.get((ri.self_term, "kw_argument_mapping")), ri.params["kw_argument_mapping"]) and \
+        given_or_default(h.get((ri.self_term, "postional_argument_names")), ri.params["positional_argument_names"])
+    ctx.ob(rule, ri.func, None, okd, "a given mapping / list of positional names is kept; the default is used only when none is given"
+           if okd else "the wrapper drops the keyword mapping (or positional names) it was given: per-sample parameters never reach "
+           "the metric", construct="wrapper keeps given mapping")
+    # writer loop: every non-None parameter is stored, nothing else guards the store, no early exit
+    if cols and maps:
+        lev = [x for x in rw.events if x.kind == "loop" and x.data.get("lid") == cols[0].loops[-1]][0]
+        pv = mk("sub", lev.data["elem"], const(1))
+        guards = [Aw.C.canon(l) for l in pc_literals(cols[0].pc) if l.op != "inloop" and l not in pc_literals(lev.pc)]
+        want_g = Aw.C.canon(mk("cmp", "is not", pv, NONE))
+        exits = [x for x in rw.events if x.kind in ("break", "return", "raise") and x.loops and x.loops[-1] == lev.data["lid"] and x.func == rw.func]
+        okw = guards == [want_g] and not exits and A.eq(lev.data["iter"], Aw.entry(rw, "sample_params.items()"))
+        ctx.ob(rule, rw.func, cols[0].node, okw, "every sample parameter that is not None gets its column and mapping entry (None "
+               "entries are skipped, nothing ends the loop early)" if okw else "a sample parameter that is not None can be skipped "
+               "(guard or early exit in the parameter loop): the metric is evaluated without it", construct="all sample params stored")
+
+
+def r015_param_routing(ctx, rule):
+    ctx.rule(rule, "_get_annotated_metric_functions: a single callable gets all of sample_params, the metric registered under key k "
+                   "gets sample_params.get(k, {}) and k as its name; every wrapper is returned under its own name")
+    A = Analysis(ctx, no_inline=[MF + "._construct_annotated_metric_function"])
+    r = A.run(MF + "._get_annotated_metric_functions", cls_ctx=MF)
+    fq = r.func
+    P = r.params
+    cs = calls_to(r, MF + "._construct_annotated_metric_function")
+    single = [e for e in cs if not e.loops]
+    multi = [e for e in cs if e.loops]
+    ctx.require(len(single) == 1 and len(multi) == 1, "anchor vanished: the two annotated-function constructions")
+    S = [A.entry(r, s_) for s_ in ("sample_params or {}", "sample_params if sample_params is not None else {}", "sample_params or dict()")]
+    isd = A.C.canon(A.entry(r, "isinstance(metric, dict)"))
+    e = single[0]
+    lits = [A.C.canon(l) for l in pc_literals(e.pc)]
+    ok = kw(e, "func") is P["metric"] and kw(e, "name") is NONE and any(A.eq(kw(e, "sample_params"), s_) for s_ in S) \
+        and kw(e, "all_data") is P["all_data"] and A.C._not(isd) in lits
+    ctx.ob(rule, fq, e.node, ok, "a single callable is wrapped with all the sample parameters (name taken from the function)",
+           construct="single metric routing")
+    e = multi[0]
+    lev = [x for x in r.events if x.kind == "loop" and x.data.get("lid") == e.loops[-1]][0]
+    k_, f_ = mk("sub", lev.data["elem"], const(0)), mk("sub", lev.data["elem"], const(1))
+    sp = kw(e, "sample_params")
+    oks = sp is not None and any(A.eq(sp, A.spec("S.get(k, {})", {"S": s_, "k": k_})) or A.eq(sp, A.spec("S.get(k, dict())", {"S": s_, "k": k_}))
+                                 for s_ in S)
+    lits = [A.C.canon(l) for l in pc_literals(e.pc)]
+    ok = kw(e, "func") is f_ and kw(e, "name") is k_ and oks and kw(e, "all_data") is P["all_data"] and isd in lits \
+        and A.eq(lev.data["iter"], A.entry(r, "metric.items()"))
+    ctx.ob(rule, fq, e.node, ok, "the metric under key k is wrapped with name k and its own sample parameters sample_params.get(k, {})"
+           if ok else "a metric of the dictionary is not wrapped with (its function, its key, its own sample parameters)",
+           construct="dict metric routing")
+    for c_ in cs:
+        st = [x for x in r.events if x.kind == "store" and x.data.get("tkind") == "sub" and x.func == fq and x.data["value"] is c_.data["result"]]
+        ok = len(st) == 1 and st[0].data["key"] is mk("attr", c_.data["result"], "name") and st[0].pc == c_.pc
+        ctx.ob(rule, fq, st[0].node if st else c_.node, ok, "the wrapper is registered under its own name", construct=f"registration {c_.line}")
+    ok = bool(r.returns) and all(v.op in ("upd", "loopout", "dict") for _, v in r.returns)
+    ctx.ob(rule, fq, None, ok, "the dictionary of wrappers is returned", construct="routing result")
 
 
 def r013_grouping(ctx):
